@@ -349,6 +349,8 @@ class _Run:
             return [["a", ["f", 1, 2]], ["b", ["f", 1, 4]], ["theta", ["i", 1]], ["n", ["i", 2]]]
         if method == "with_dimension":
             return [t.pick((3, 2, 4), "derive.dimension")]
+        if method == "with_operation":
+            return [t.pick(("x", "measure", "controlled", "feedforward"), "derive.operation")]
         if method == "with_classical_controls":
             return [c11_gen.Gen(t).condition()]
         return []
@@ -448,6 +450,8 @@ class _Run:
             ctx.probe("ref-entry-emitted")
         if rec["named_deep"]:
             ctx.probe("namedqubit-in-circuitop-in-frozencircuit")
+        if "measurement-and-control-keys" in rec["flags"]:
+            ctx.probe("op-with-measurement-and-control-keys")
         if any(m["src"] == (node.idx, node.gen, slot) for m in self.messages):
             ctx.probe("same-value-in-two-dumps")
             if "shared-frozen" in rec["flags"] or "frozen" in rec["flags"]:
@@ -789,7 +793,8 @@ class C11(Check):
                        "pickle-protocol-2", "second-hop", "third-hop", "hop-back-to-origin",
                        "corpus-read-after-imports", "same-frozen-circuit-in-two-dumps",
                        "copy-of-cache-touched-value", "mutated-repr-accepted", "mutated-repr-rejected",
-                       "derive-after-hash-cached", "derive-after-hop", "export-sweep"]
+                       "derive-after-hash-cached", "derive-after-hop", "export-sweep",
+                       "op-with-measurement-and-control-keys"]
 
     def setup(self) -> None:
         """Start the zygotes (one pre-imported interpreter per hash seed, shared by all workers; nodes are
